@@ -139,11 +139,26 @@ def make_device(kind, seed=0):
             tdgl.Polygon("t3", points=box(2.2, 0.2, center=(1, 2), points=8)),
         ]
         probes = None
+    elif kind in ("tee3", "cross4"):
+        film = tdgl.Polygon("film", points=np.array([[0, 0], [1, 0], [2, 0], [3, 0], [3, 1], [3, 2], [2, 2], [1, 2], [0, 2], [0, 1]], float))
+        terms = [
+            tdgl.Polygon("left", points=box(0.2, 2.2, center=(0, 1), points=8)),
+            tdgl.Polygon("right", points=box(0.2, 2.2, center=(3, 1), points=8)),
+            tdgl.Polygon("top", points=box(1.2, 0.2, center=(1.5, 2), points=8)),
+        ]
+        if kind == "cross4":
+            terms.append(tdgl.Polygon("bottom", points=box(1.2, 0.2, center=(1.5, 0), points=8)))
+        probes = None
+    elif kind == "holed":
+        film = tdgl.Polygon("film", points=np.array([[0, 0], [1.5, 0], [3, 0], [3, 1.5], [3, 3], [1.5, 3], [0, 3], [0, 1.5]], float))
+        holes = [tdgl.Polygon("hole", points=np.array([[1, 1], [2, 1], [2, 2], [1, 2]], float))]
+        terms = []
+        probes = None
     elif kind == "bar0":
         terms = []
         probes = None
     else:
         raise KeyError(kind)
-    dev = tdgl.Device("d", layer=layer, film=film, terminals=terms, probe_points=probes)
+    dev = tdgl.Device("d", layer=layer, film=film, holes=locals().get("holes"), terminals=terms, probe_points=probes)
     dev.make_mesh(max_edge_length=0, min_points=None)
     return dev
